@@ -1,4 +1,5 @@
 import SctpVerif.Gen.Facts
+import SctpVerif.Gen.Consts
 /-!
 # C08 — state guards of the code, pinned
 
@@ -26,5 +27,9 @@ theorem C08_state_guards_pinned :
      ("Association.onShutdownTimeout", ["case shutdownSent", "case shutdownAckSent"]),
      ("entersShutdownReceived", ["state == established", "state == shutdownPending"]),
      ("isShutdownHandleState", ["case established,shutdownPending,shutdownReceived,shutdownSent"])] := by decide
+
+/-- **T2-shutdown has no retry limit** (regenerated timer-creation fact): SHUTDOWN / SHUTDOWN-ACK are retransmitted until answered, so any finite number of losses of the shutdown chunks is survived (`C08_recovers_from_single_losses` proves one loss per chunk on the model; the timer automaton theorems of C19 give the rest). -/
+theorem C08_t2_never_gives_up :
+    ("timerT2Shutdown", "noMaxRetrans") ∈ Gen.rtxTimerSites ∧ Gen.noMaxRetrans = 0 := by decide
 
 end C08
